@@ -171,6 +171,11 @@ def extra_shapes(backend):
         f"ds.Select(lambda e: ({S}.Where(lambda j: j.pt() > 1 and j.isGood()).Count(), e.{a.secondary}('B').Select(lambda k: k.pt() if k.nTrk() > 1 else k.eta())))",
         f"ds.Where(lambda e: {S}.Count() > 0 or e.{a.secondary}('B').Count() > 0).Select(lambda e: {S}.Select(lambda j: j.parts().Select(lambda p: p.pt())))",
         f"ds.Select(lambda e: Range(0, {S}.Count()).Select(lambda i: i * 2))",
+        # a declared tree_type at every nesting depth of the column (member and per-level buffers must agree)
+        f"MetaData(ds, {{'metadata_type': 'add_method_type_info', 'type_string': '{a.primary_cls}', 'method_name': 'q', 'return_type': 'float', 'tree_type': 'double'}}).Select(lambda e: {S}.Select(lambda j: j.q()))",
+        f"MetaData(ds, {{'metadata_type': 'add_method_type_info', 'type_string': '{a.primary_cls}', 'method_name': 'q', 'return_type': 'float', 'tree_type': 'double'}}).Select(lambda e: {S}.Select(lambda j: j.parts().Select(lambda p: p.q())))",
+        f"MetaData(ds, {{'metadata_type': 'add_method_type_info', 'type_string': '{a.primary_cls}', 'method_name': 'nTrk', 'return_type': 'int', 'tree_type': 'long'}}).Select(lambda e: {S}.Select(lambda j: j.parts().Select(lambda p: p.parts().Select(lambda r: r.nTrk()))))",
+        f"MetaData(ds, {{'metadata_type': 'add_method_type_info', 'type_string': '{a.primary_cls}', 'method_name': 'nTrk', 'return_type': 'int', 'tree_type': 'long'}}).Select(lambda e: ({S}.Count(), {S}.Select(lambda j: j.parts().Select(lambda p: p.nTrk()))))",
     ]
     if backend == "atlas":
         qs += [f"ds.Select(lambda e: {S}.Select(lambda j: j.getAttributeFloat('w')))", f"ds.Select(lambda e: {S}.Select(lambda j: j.getAttributeVectorFloat('v')))",
